@@ -50,7 +50,7 @@ def rows_for_tlc(audit, positions):
                         approx=w["approx"], re=w["re"], rerel=w["rerel"], reeq=w["reeq"], heq=w["heq"]))
     for w in audit["rel"]:
         out.append(dict(kind="rel", a=w["a"] + 1, b=w["b"] + 1, rel=w["rel"], isrel=w["isrel"], ok=w["ok"], re=w["re"],
-                        reeq=w["reeq"], heq=w["heq"]))
+                        reeq=w["reeq"], heq=w["heq"], peq=w.get("peq", False), pheq=w.get("pheq", False)))
     for (text, idx) in positions:
         _rel, cs = comps(text)
         out.append(dict(kind="pos", path=cs, idx=idx, text=text))
